@@ -18,6 +18,7 @@ type Request struct {
 	Src       HB   `json:"src"`
 	WantToks  bool `json:"toks,omitempty"`
 	WantProto bool `json:"proto,omitempty"`
+	File      bool `json:"file,omitempty"` // load through LState.LoadFile from a temporary file
 	LimitMs   int  `json:"-"`
 }
 
@@ -32,7 +33,11 @@ func childMain() {
 		}
 		t0 := time.Now()
 		res := Result{ID: rq.ID}
-		res.Load, res.Msg, res.Proto = loadOnce(rq.Src, rq.WantProto)
+		if rq.File {
+			res.Load, res.Msg = loadFileOnce(rq.Src)
+		} else {
+			res.Load, res.Msg, res.Proto = loadOnce(rq.Src, rq.WantProto)
+		}
 		if rq.WantToks {
 			res.Toks, res.LexErr, res.LexFail = scanAll(rq.Src)
 		}
